@@ -58,7 +58,11 @@ pub fn notes(x: &mut Exec, op: &Value) -> Value {
     let es = op["es"].as_str().unwrap();
     with_es!(es, e => {
         let (r, a, m) = collect_notes(NoteIterator::new(e, class, align, buf));
-        event(op, notes_res(buf, r), a, m)
+        let mut res = notes_res(buf, r);
+        if op.get("walk").is_some() && res["out"] == "ok" {
+            res["walk"] = crate::walk::walk(NoteIterator::new(e, class, align, buf), &op["walk"], &|n: Note<'static>| note_proj(buf, &n));
+        }
+        event(op, res, a, m)
     })
 }
 
@@ -176,7 +180,17 @@ pub fn ver_iter(x: &mut Exec, op: &Value) -> Value {
                 for ax in items.iter() { out.push(json!({"f":ax.proj()})); }
             }
         }
-        event(op, match r { Ok(n) => json!({"out":"ok","n":n,"items":out}), Err(p) => panic_res(&p) }, a, m)
+        let mut res = match r { Ok(n) => json!({"out":"ok","n":n,"items":out}), Err(p) => panic_res(&p) };
+        if op.get("walk").is_some() && res["out"] == "ok" {
+            let w = &op["walk"];
+            res["walk"] = match kind {
+                "verdef_iter" => crate::walk::walk(VerDefIterator::new(e, class, count, start, buf), w, &|(vd, _)| vd.proj()),
+                "verneed_iter" => crate::walk::walk(VerNeedIterator::new(e, class, count, start, buf), w, &|(vn, _)| vn.proj()),
+                "verdaux_iter" => crate::walk::walk(VerDefAuxIterator::new(e, class, count as u16, start, buf), w, &|ax| ax.proj()),
+                _ => crate::walk::walk(VerNeedAuxIterator::new(e, class, count as u16, start, buf), w, &|ax| ax.proj()),
+            };
+        }
+        event(op, res, a, m)
     })
 }
 
